@@ -248,6 +248,17 @@ Example general_layout_instance :
                  rmatrix := [[4;16;0;0;0]; [19;0;0;1;0]; [0;20;0;0;0]]%N |}); Ok None].
 Proof. vm_compute. reflexivity. Qed.
 
+(* blanks after an identifier without description (">x \t\n" reads as x, no description): printable since
+   g_hsep is then the trailing blanks *)
+Example general_layout_trailing_blanks :
+  let r := {| g_id := [120%N]; g_desc := None; g_hsep := [32;9]%N; g_crlf := true;
+              g_lines := map (fun s => {| g_sym := s; g_gap := [32%N]; g_toks := [([], [55%N])]; g_tail := []; g_post := [] |})
+                             [65;67;71;84]%N |} in
+  wf_jaspar16_g Dna r = true /\
+  jaspar16_read Dna (fun _ => 0) [print_file_g print_jaspar16_g [] [r] []]
+  = [Ok (Some {| rid := [120%N]; rdesc := None; rmatrix := [[7;7;7;7;0]]%N |}); Ok None].
+Proof. vm_compute. split; reflexivity. Qed.
+
 (* ================= round 3: the consumer that keeps asking after End =================
    A well-formed file read through ANY chunking by a consumer that makes n > (number of records)
    requests: exactly the written records, in order, then End at every further request -- nothing
@@ -309,3 +320,37 @@ Check reader_roundtrip_polls_jaspar : forall n caps prefix rs suffix s,
   wf_stream s -> stream_bytes s = print_file print_jaspar prefix rs suffix -> length rs < n ->
   jaspar_polls_e n caps (of_stream s)
   = map (fun p => Ok (Some (record_of Dna 0%N dec_value (snd p)))) rs ++ repeat (Ok None) (n - length rs).
+
+(* the consumer that keeps asking after End, general layout *)
+Theorem reader_roundtrip_polls_jaspar16_general : forall A n caps prefix rs suffix s,
+  wf_alphabet A ->
+  rs <> [] -> forallb (wf_jaspar16_g A) rs = true -> wf_prefix prefix = true -> wf_suffix suffix = true ->
+  wf_stream s -> stream_bytes s = print_file_g print_jaspar16_g prefix rs suffix -> length rs < n ->
+  jaspar16_polls_e A n caps (of_stream s)
+  = map (fun r => Ok (Some (record_of A 0%N dec_value (src_of_g r)))) rs ++ repeat (Ok None) (n - length rs).
+Proof.
+  intros A n caps prefix rs suffix s HA Hne Hwf Hp Hs W E Hn.
+  pose proof (reader_roundtrip_jaspar16_general A caps prefix rs suffix s HA Hne Hwf Hp Hs W E) as R.
+  rewrite <- (jaspar16_read_e_of_stream A caps s W) in R.
+  rewrite <- (map_map (fun r => record_of A 0%N dec_value (src_of_g r)) (fun r => Ok (Some r))) in R |- *.
+  rewrite <- (map_length (fun r => record_of A 0%N dec_value (src_of_g r)) rs) in Hn |- *.
+  apply (j_polls_records_then_end (j16_record A) (pspec_j16_record A (fun c k H => proj1 (HA c k H)))); try assumption.
+  - apply Nat.leb_le. reflexivity.
+  - apply wf_of_stream. exact W.
+Qed.
+
+Theorem reader_roundtrip_polls_jaspar_general : forall n caps prefix rs suffix s,
+  rs <> [] -> forallb wf_jaspar_g rs = true -> wf_prefix prefix = true -> wf_suffix suffix = true ->
+  wf_stream s -> stream_bytes s = print_file_g print_jaspar_g prefix rs suffix -> length rs < n ->
+  jaspar_polls_e n caps (of_stream s)
+  = map (fun r => Ok (Some (record_of Dna 0%N dec_value (src_of_g r)))) rs ++ repeat (Ok None) (n - length rs).
+Proof.
+  intros n caps prefix rs suffix s Hne Hwf Hp Hs W E Hn.
+  pose proof (reader_roundtrip_jaspar_general caps prefix rs suffix s Hne Hwf Hp Hs W E) as R.
+  rewrite <- (jaspar_read_e_of_stream caps s W) in R.
+  rewrite <- (map_map (fun r => record_of Dna 0%N dec_value (src_of_g r)) (fun r => Ok (Some r))) in R |- *.
+  rewrite <- (map_length (fun r => record_of Dna 0%N dec_value (src_of_g r)) rs) in Hn |- *.
+  apply (j_polls_records_then_end (j_record false) pspec_j_record); try assumption.
+  - apply Nat.leb_le. reflexivity.
+  - apply wf_of_stream. exact W.
+Qed.
